@@ -430,6 +430,10 @@ impl Data {
                 is_capture,
                 dst,
             } => {
+                if piece == Piece::Pawn {
+                    // Pawn moves cannot be stored as `Data::Simple`
+                    return Err(IntoMoveError::Create(CreateError::NotWellFormed));
+                }
                 if is_capture && b.get(dst).is_free() {
                     return Err(IntoMoveError::CaptureExpected);
                 }
